@@ -121,11 +121,11 @@ class Report:
               f"transitions={self.transitions} replayed={self.replayed} "
               f"evaluations={self.evaluations} violations={len(self.violations)} "
               f"known={sum(v[1] for v in self.known.values())} wall={wall:.1f}s")
-        if self.machinery_errors:
-            for m in self.machinery_errors[:10]:
-                print("MACHINERY-ERROR:", m, file=sys.stderr)
-            return 2
-        return 1 if self.violations else 0
+        for m in self.machinery_errors[:10]:
+            print("MACHINERY-ERROR:", m, file=sys.stderr)
+        if self.violations:
+            return 1
+        return 2 if self.machinery_errors else 0
 
 
 def pmap(fn, items, chunksize=8):
